@@ -118,7 +118,9 @@ bool FileManager::getCleanLine(std::istream& _ifs, std::string& _string, bool _s
                 return true;
         }
 
-        if(_ifs.eof()) {
+        // a stream in fail state (e.g. after a property value that could not be
+        // parsed) never reaches eof: stop as well
+        if(_ifs.eof() || _ifs.fail()) {
             if (verbosity_level_ >= 2) {
                 std::cerr << "End of file reached while searching for input!" << std::endl;
             }
